@@ -1,5 +1,6 @@
-"""C11 extension: ORDER and CONTENT clauses of qsort / bsearch (and the two bound searches of bsearch.c) decided by
-ELEMENT IDENTITY on small concrete arrays.
+"""C11 extension: ORDER and CONTENT clauses of qsort / bsearch decided by ELEMENT IDENTITY on small concrete arrays, and
+the values atol / atoi return for long digit strings.  (`run_bounds`, the same analysis for the non-ISO helpers lower_bound /
+upper_bound of bsearch.c, is kept but not called: they are outside the statement of property C11.)
 
 Technique (static only - no igris code is executed, no solver): an abstract interpreter over the functions' LLVM IR
 (`c11_order_vm.Machine`) whose domain is
@@ -20,6 +21,13 @@ Technique (static only - no igris code is executed, no solver): an abstract inte
 
 At the return of every leaf the array is compared with the definition (ISO C 7.22.5): permutation of the input elements,
 ordered for every weak order left in the leaf's set; bsearch: pointer to an element that compares equal iff one exists.
+
+atol / atoi (R-ATOVAL): the same machine with the characters of the text as RANGED byte symbols (one whole character class per
+position: white space, digit, stopper) and linear forms over them; conditions that a class does not decide split the class
+where they reach a branch.  Decides the value of texts of up to 18 (atoi: 9) digits - c11's R-PARSE stops at three.
+
+Anything the machine cannot follow exactly (a call without summary, a branch on element contents, a path budget) makes the
+scenario "unresolved": AnalysisBroken, never a verdict.
 """
 import os
 import multiprocessing
@@ -35,6 +43,8 @@ BSEARCH_UNIT = 'compat/libc/stdlib/bsearch.c'
 
 QSIZES = [1, 4, 8, 3]
 BSIZES = [1, 4, 12, 3]
+MAXPATHS = 3000000            # per job
+MAXPATHS_ATO = 20000
 MAXV = 6                      # violations collected per job before the job stops
 
 
@@ -104,7 +114,7 @@ class SortOracle:
     def identify(self, m, st, p, which):
         K = self.K
         if not (isinstance(p, tuple) and p[0] == 'p'):
-            raise VM.Viol('cmpargs', 'comparator argument %d is not a pointer (%s)' % (which, VM.show(p)))
+            raise Unresolved('comparator argument %d is not a pointer (%s)' % (which, VM.show(p)))
         if p[1] == 0:
             raise VM.Viol('cmpargs', 'comparator argument %d is a null pointer' % which)
         o = st.objs.get(p[1])
@@ -361,6 +371,9 @@ def explore(m, st0, res, leaf, describe, part=None):
                 first = False
                 alts = [x for k, x in enumerate(alts) if k % part[1] == part[0]]
             work.extend(alts)
+            if res['paths'] > MAXPATHS:
+                res['unresolved'].append('%s: more than %d paths' % (describe(st0) if st0.S else '', MAXPATHS))
+                break
             continue
         if first and part[0] != 0:
             continue                    # no fork at all: the single path belongs to part 0
@@ -497,6 +510,10 @@ def job_ato(a):
                         continue
                     if out[0] == 'fork':
                         work.extend(out[1])
+                        if len(work) + res['paths'] > MAXPATHS_ATO:
+                            res['unresolved'].append('%s: more than %d paths' % (desc, MAXPATHS_ATO))
+                            done = False
+                            break
                         continue
                     res['paths'] += 1
                     want = m.mk_lin(st, -48 * sg * sum(10 ** (nd - 1 - k) for k in range(nd)),
@@ -571,33 +588,58 @@ ACLAUSES = [
 
 
 def run_ext(rep, repo, tier):
+    """the clauses of property C11: qsort (R-QORDER), bsearch (R-BFIND), atol/atoi values (R-ATOVAL)"""
+    _run(rep, repo, tier, ('qsort', 'bsearch', 'ato'))
+
+
+def run_bounds(rep, repo, tier):
+    """R-BOUNDS: lower_bound / upper_bound against the descriptions in compat/libc/include/stdlib.h.
+    NOT CALLED: the two non-ISO helpers of bsearch.c are outside the statement of property C11 (strto*, atoi, atol, qsort,
+    bsearch), so a rule on them would demand more than the property states.  Kept for whoever wants to look at them; when
+    bsearch is written in terms of them, R-BFIND follows the calls and decides what bsearch needs of them anyway."""
+    _run(rep, repo, tier, ('bounds',))
+
+
+def _run(rep, repo, tier, parts):
     thorough = tier != 'quick'
     qn = 6 if thorough else 5
     bn = 9 if thorough else 7
     # compile once in the parent (children are forked)
-    qmod = unit(repo, QSORT_UNIT)
-    bmod = unit(repo, BSEARCH_UNIT)
-    qf = fn_of(qmod, 'qsort', QSORT_UNIT)
     jobs = []
-    for K in QSIZES:
-        for n in range(qn, -1, -1):
-            if n >= 6:
-                for k in range(n):
-                    jobs.append(('qsort', (repo, n, K, (k, n))))
-            else:
-                jobs.append(('qsort', (repo, n, K, None)))
-    searchers = ['bsearch', 'lower_bound', 'upper_bound']
-    for fname in searchers:
-        fn_of(bmod, fname, BSEARCH_UNIT)
-        for K in BSIZES:
-            for n in range(bn, -1, -1):
-                jobs.append(('search', (repo, fname, n, K)))
-    amod = ato_unit(repo)
-    preload(repo, amod)
-    for fname in ('atol', 'atoi'):
-        fn_of(amod, fname, ATOL_UNIT)
-        for nd in range(1, ATO_DIGITS[fname] + 1):
-            jobs.append(('ato', (repo, fname, nd)))
+    analysed = []
+    table = []
+    if 'qsort' in parts:
+        qmod = unit(repo, QSORT_UNIT)
+        fn_of(qmod, 'qsort', QSORT_UNIT)
+        analysed.append('qsort')
+        table.append(('qsort', 'R-QORDER', QCLAUSES, QSIZES, qmod))
+        for K in QSIZES:
+            for n in range(qn, -1, -1):
+                if n >= 6:
+                    for k in range(n):
+                        jobs.append(('qsort', (repo, n, K, (k, n))))
+                else:
+                    jobs.append(('qsort', (repo, n, K, None)))
+    searchers = (['bsearch'] if 'bsearch' in parts else []) + (['lower_bound', 'upper_bound'] if 'bounds' in parts else [])
+    if searchers:
+        bmod = unit(repo, BSEARCH_UNIT)
+        for fname in searchers:
+            fn_of(bmod, fname, BSEARCH_UNIT)
+            analysed.append(fname)
+            table.append((fname, 'R-BFIND', BCLAUSES, BSIZES, bmod) if fname == 'bsearch' else
+                         (fname, 'R-BOUNDS', LCLAUSES, BSIZES, bmod))
+            for K in BSIZES:
+                for n in range(bn, -1, -1):
+                    jobs.append(('search', (repo, fname, n, K)))
+    atos = ('atol', 'atoi') if 'ato' in parts else ()
+    if atos:
+        amod = ato_unit(repo)
+        preload(repo, amod)
+        for fname in atos:
+            fn_of(amod, fname, ATOL_UNIT)
+            analysed.append(fname)
+            for nd in range(1, ATO_DIGITS[fname] + 1):
+                jobs.append(('ato', (repo, fname, nd)))
     jobs.sort(key=lambda j: -(j[1][1] if j[0] == 'qsort' else 0))
     results = run_jobs(jobs)
     agg = {}
@@ -623,14 +665,13 @@ def run_ext(rep, repo, tier):
         n0, text, where = lst[0]
         more = [x for x in lst if x[0] != n0]
         if more:
-            text += '; also for %s %s, e.g. %s' % ('digit count' if k[0] in ATO_DIGITS else 'nmemb', ', '.join(str(x) for x in sorted(set(x[0] for x in more))), more[0][1])
+            text += '; also for %s %s, e.g. %s' % ('digit count' if k[0] in ATO_DIGITS else 'nmemb',
+                                                   ', '.join(str(x) for x in sorted(set(x[0] for x in more))), more[0][1])
         agg[k] = (n0, text, where)
     for (fname, n, K), (total, cov) in cover.items():
         stats[fname]['scenarios'] += total
         stats[fname]['scenarios_covered'] += len(cov)
-    table = [('qsort', 'R-QORDER', QCLAUSES, QSIZES, qmod, qn), ('bsearch', 'R-BFIND', BCLAUSES, BSIZES, bmod, bn),
-             ('lower_bound', 'R-BOUNDS', LCLAUSES, BSIZES, bmod, bn), ('upper_bound', 'R-BOUNDS', LCLAUSES, BSIZES, bmod, bn)]
-    for (fname, rule, clauses, sizes, mod, nmax) in table:
+    for (fname, rule, clauses, sizes, mod) in table:
         f = mod.fn(fname)
         where = '%s:%d' % (f.file, f.line)
         for K in sizes:
@@ -638,7 +679,7 @@ def run_ext(rep, repo, tier):
                 bad = agg.get((fname, K, clause))
                 rep.inst('%s:%s' % (rule, clause), fname, 'element size %d: %s' % (K, text), bad is None,
                          bad[2] if bad else where, bad[1] if bad else None)
-    for fname in ('atol', 'atoi'):
+    for fname in atos:
         f = amod.fn(fname)
         where = '%s:%d' % (f.file, f.line)
         for (clause, text) in ACLAUSES:
@@ -646,22 +687,26 @@ def run_ext(rep, repo, tier):
             rep.inst('R-ATOVAL:%s' % clause, fname, text % ATO_DIGITS[fname], bad is None, bad[2] if bad else where,
                      bad[1] if bad else None)
     failing = bool(agg)
-    rep.extra['c11_order'] = stats
-    for c, _ in QCLAUSES:
-        rep.floor('R-QORDER:' + c, len(QSIZES))
-    for c, _ in BCLAUSES:
-        rep.floor('R-BFIND:' + c, len(BSIZES))
-    for c, _ in LCLAUSES:
-        rep.floor('R-BOUNDS:' + c, 2 * len(BSIZES))
-    for c, _ in ACLAUSES:
-        rep.floor('R-ATOVAL:' + c, 2)
+    rep.extra.setdefault('c11_order', {}).update(stats)
+    if 'qsort' in parts:
+        for c, _ in QCLAUSES:
+            rep.floor('R-QORDER:' + c, len(QSIZES))
+    if 'bsearch' in parts:
+        for c, _ in BCLAUSES:
+            rep.floor('R-BFIND:' + c, len(BSIZES))
+    if 'bounds' in parts:
+        for c, _ in LCLAUSES:
+            rep.floor('R-BOUNDS:' + c, 2 * len(BSIZES))
+    if atos:
+        for c, _ in ACLAUSES:
+            rep.floor('R-ATOVAL:' + c, 2)
     broken = []
     if unresolved:
         broken.append('c11_order: %d scenario(s) could not be analysed exactly, e.g. %s' % (len(unresolved), unresolved[0][:600]))
     if not failing:
-        # every scenario (weak order / sorted array + key position) must have reached a return on some path; a job stops
-        # after its first violations, so this only applies to a silent run
-        for fname in ['qsort'] + searchers + ['atol', 'atoi']:
+        # every scenario (weak order / sorted array + key position / text) must have reached a return on some path; a job
+        # stops after its first violations, so this only applies to a silent run
+        for fname in analysed:
             sf = stats.get(fname, {})
             if sf.get('paths', 0) <= 0 or sf.get('scenarios_covered', 0) != sf.get('scenarios', -1):
                 broken.append('c11_order: %s: %d of %d scenarios reached a return' % (fname, sf.get('scenarios_covered', 0),
@@ -674,14 +719,26 @@ def run_ext(rep, repo, tier):
                 rep.defer_broken(b)
         else:
             raise AnalysisBroken('; '.join(broken))
-    rep.explanation += (
-        ' ORDER/CONTENT (c11_order, element identity on concrete small arrays): qsort for nmemb 0..%d and element sizes %s with '
-        'every element its own byte-wise symbol and the comparator an oracle consistent with one weak order per path (all '
-        'weak orders incl. ties, all rand() %% nmemb pivot choices): the result is a permutation of whole input elements, '
-        'ordered, the comparator only sees whole elements, all accesses in range, termination, sign-only use of the '
-        'comparator result. bsearch for sorted arrays of 0..%d keys (all tie groupings) and every key position (equal to '
-        'each class, between, before, behind): an equal element iff one exists, compar(key, element) only, at most '
-        'floor(log2 n)+2 comparisons, nothing written. lower_bound/upper_bound: the first element named by the '
-        'description in stdlib.h when one exists.' % (qn, QSIZES, bn))
-    rep.assumptions += ['c11_order: the comparator is a function of the two elements\' contents that induces a total preorder; '
-                        'object addresses are not within one element of the ends of the address space (base - size does not wrap)']
+    if 'qsort' in parts:
+        rep.explanation += (
+            ' ORDER/CONTENT (c11_order, element identity on concrete small arrays): qsort for nmemb 0..%d and element sizes %s '
+            'with every element its own byte-wise symbol and the comparator an oracle consistent with one weak order per path '
+            '(all weak orders incl. ties, all rand() %% nmemb pivot choices): the result is a permutation of whole input '
+            'elements, ordered, the comparator only sees whole elements, all accesses in range, termination, sign-only use of '
+            'the comparator result.' % (qn, QSIZES))
+    if 'bsearch' in parts:
+        rep.explanation += (
+            ' bsearch for sorted arrays of 0..%d keys (all tie groupings), element sizes %s and every key position (equal to '
+            'each class, between, before, behind): an equal element iff one exists, compar(key, element) only, at most '
+            'floor(log2 n)+2 comparisons, nothing written.' % (bn, BSIZES))
+    if atos:
+        rep.explanation += (
+            ' atol/atoi: the value of texts [white space][sign] 1..18 (atoi: 1..9) symbolic digits [stopper] equals the decimal '
+            'closed form, nothing read behind the terminator.')
+    if 'bounds' in parts:
+        rep.explanation += (' lower_bound/upper_bound (outside the property): the first element named by the description in '
+                            'stdlib.h when one exists.')
+    if 'qsort' in parts or searchers:
+        rep.assumptions += ['c11_order: the comparator is a function of the two elements\' contents that induces a total '
+                            'preorder; object addresses are not within one element of the ends of the address space (base - '
+                            'size does not wrap)']
